@@ -107,7 +107,13 @@ def gen_program(rnd):
         expr = apm.num(K)
     if kind in ("dotlead", "dotlead-diff"):
         e = apm.num(K) if kind == "dotlead" else ("bin", "+", apm.num(K), diff())
-        files[0].stmts.insert(0, apm.dotassign(e))
+        d = apm.dotassign(e)
+        d.is_base = True
+        files[0].stmts.insert(0, d)
+        if rnd.random() < 0.35:
+            # statements that emit nothing before it: it is still the leading '. ='
+            files[0].stmts.insert(0, rnd.choice([apm.simple(".list"), apm.simple(".title", "some text"), apm.assign("zq9pre", apm.num(5)), apm.simple(".page")]))
+            tag += "+pre"
     elif expr is not None:
         f = rnd.choice(files)
         pos = rnd.randrange(len(f.stmts) + 1)
@@ -125,7 +131,7 @@ def gen_program(rnd):
         seen_site = False
         for f in files:
             for idx, s in enumerate(list(f.stmts)):
-                if s.k == "link" or (s.k == "dot" and f is files[0] and idx == 0):
+                if s.k == "link" or (s.k == "dot" and getattr(s, "is_base", False)):
                     seen_site = True
             if seen_site:
                 n = rnd.choice([0, 1, 1, 2, 3, 64, rnd.randrange(0, 65), rnd.randrange(0, 65)])     # the smallest moves are the boundary
@@ -133,7 +139,7 @@ def gen_program(rnd):
                 how = rnd.choice(["dot", "label", "latesym"])
                 pos = rnd.randrange(max(1, len(f.stmts) // 2), len(f.stmts) + 1)
                 # never before the site within this file
-                site_idx = max([i for i, s in enumerate(f.stmts) if s.k in ("link",) or (s.k == "dot" and f is files[0] and i == 0)] + [-1])
+                site_idx = max([i for i, s in enumerate(f.stmts) if s.k in ("link",) or (s.k == "dot" and getattr(s, "is_base", False))] + [-1])
                 pos = max(pos, site_idx + 1)
                 if how == "dot":
                     e = ("bin", "-" if back else "+", ("dot",), apm.num(n, "d"))
@@ -156,8 +162,11 @@ def gen_program(rnd):
                 f.stmts.insert(pos + 3, apm.simple(".even"))
                 skip_tag = f"skip|{'back' if back else 'fwd'}|{how}|{n}"
                 break
-    # probes: every label value
-    if K % 2 == 0:
+    # probes: every label value (not always: a statement that has to wait for an address, after the directive, changes how often
+    # the pending link expression is re-tried; without probes base and image length are what is compared)
+    if rnd.random() < 0.3:
+        tag += "|noprobe"
+    elif K % 2 == 0:
         files[-1].stmts.append(apm.simple(".even"))
         files[-1].stmts.append(apm.data(".word", *[("sym", l) for l in labels[:12]]))
     else:
